@@ -1036,6 +1036,12 @@ def mon_c31(tr: Trace) -> list[Violation]:
     rc = _runner_calls(tr)
     start_t = rc[0].now if rc else 0.0
     harness_cancel = any("stuck: cancelled by harness" in n for n in tr.notes)
+    if kind == "timeout" and timeout is not None:
+        # "a run that finishes first is never timed out": a step had returned the StopEvent before the deadline
+        fin = [r for r in tr.steps if r[0] == "exit" and r[5].get("status") == "ok" and (r[5].get("ret") or ("",))[0] == "stop" and r[4] != -1.0]
+        if fin and fin[0][4] < start_t + timeout:
+            out.append(Violation("C31/finished_run_timed_out", f"step {fin[0][1]} returned the StopEvent at {fin[0][4]}, before the deadline {start_t + timeout}, "
+                                 f"yet the run failed with WorkflowTimeoutError", case))
     if kind == "timeout":
         if len(timed) != 1 or not isinstance(pubs[-1], WorkflowTimedOutEvent):
             out.append(Violation("C31/timeout_without_timed_out_event_last", f"run failed with WorkflowTimeoutError; WorkflowTimedOutEvent published {len(timed)} times, last event {type(pubs[-1]).__name__ if pubs else None}", case))
@@ -1052,8 +1058,11 @@ def mon_c31(tr: Trace) -> list[Violation]:
     else:
         if timed:
             out.append(Violation("C31/finished_run_timed_out", f"run ended as {kind} but WorkflowTimedOutEvent was published", case))
-        if timeout is not None and tr.end_time > start_t + timeout and not harness_cancel:
-            out.append(Violation("C31/unfinished_run_not_timed_out", f"run with timeout {timeout} started at {start_t} was still running at {tr.end_time} and ended as {kind}", case))
+        # a run has finished when a step returned its StopEvent (stopping the other workers may take a moment longer)
+        fin_t = min([r[4] for r in tr.steps if r[0] == "exit" and r[5].get("status") == "ok" and (r[5].get("ret") or ("",))[0] == "stop" and r[4] != -1.0] or [tr.end_time]) \
+            if kind == "result" else tr.end_time
+        if timeout is not None and fin_t > start_t + timeout and not harness_cancel:
+            out.append(Violation("C31/unfinished_run_not_timed_out", f"run with timeout {timeout} started at {start_t} was still running at {fin_t} and ended as {kind}", case))
         if timeout is not None and harness_cancel:
             # the harness ends a run only when nothing is runnable AND no timer is pending: a run with a timeout always has its
             # timeout timer pending until it ends, so this run would have stayed unfinished for ever
